@@ -1,10 +1,11 @@
 #!/bin/sh
 # Build every simulator flavour from files on disk only (offline).
 set -e
-cd /verif
+cd "$(dirname "$(readlink -f "$0")")"
+V=$(pwd)
 export CARGO_NET_OFFLINE=true
 ./check build rel asan feat-sse feat-avx feat-none
-(cd /verif/witness && cargo check --offline --target-dir /verif/target/witness >/dev/null 2>&1)
+(cd $V/witness && cargo check --offline --target-dir $V/target/witness >/dev/null 2>&1)
 # Engine B (Miri) build
-(cd /verif/sim && RUSTFLAGS="-C target-feature=+sse4.1,+avx,+fma,+avx2" MIRIFLAGS="-Zmiri-disable-isolation" cargo +nightly miri run --offline --target-dir /verif/target/miri -- miri-case --prop C11 --from 0 --to 0 >/dev/null 2>&1)
+(cd $V/sim && RUSTFLAGS="-C target-feature=+sse4.1,+avx,+fma,+avx2" MIRIFLAGS="-Zmiri-disable-isolation" cargo +nightly miri run --offline --target-dir $V/target/miri -- miri-case --prop C11 --from 0 --to 0 >/dev/null 2>&1)
 echo setup done
